@@ -153,6 +153,7 @@ def errSexp : FErr → Sexp
   | .condNonzeroBranch => .list [.atom "err", .atom "condNonzeroBranch"]
   | .condEmptyKey => .list [.atom "err", .atom "condEmptyKey"]
   | .sumArgFree => .list [.atom "err", .atom "sumArgFree"]
+  | .targetArgFree => .list [.atom "err", .atom "targetArgFree"]
   | .divisionByZero => .list [.atom "err", .atom "divisionByZero"]
   | .malformed w => .list [.atom "err", .atom "malformed", .atom w]
 
